@@ -14,10 +14,14 @@ structure Resp where
   model : String := ""
   tags : List String := []
 
+/-- one response = one line, fields separated by tabs: whatever source text a handler quotes must not break that -/
+def oneLine (s : String) : String :=
+  ((s.replace "\r\n" "<CRLF>").replace "\n" "<LF>").replace "\r" "<CR>" |>.replace "\t" "<TAB>"
+
 def Resp.render (r : Resp) : String :=
   (if r.agree then "agree" else "DIFF") ++ "\t" ++
-  (match r.spec with | none => "ok" | some w => "BAD:" ++ w) ++ "\t" ++
-  r.model ++ "\t" ++ ",".intercalate r.tags
+  (match r.spec with | none => "ok" | some w => "BAD:" ++ oneLine w) ++ "\t" ++
+  oneLine r.model ++ "\t" ++ ",".intercalate r.tags
 
 def Resp.malformed (why : String) : Resp :=
   { agree := false, spec := none, model := "MALFORMED-REQUEST " ++ why }
